@@ -50,6 +50,9 @@
     (def got @[])
     (repeat k (ev/go (fn [] (array/push got (ev/take c)))))
     (ev/sleep 0)
+    # the parked takers are referenced by nothing but the channel's queue of pending readers
+    (gccollect)
+    (repeat 4 (fiber/new (fn [] r)) (buffer "trash-" 54321 "-" (string/repeat "p" 20)))
     (def want @[])
     (repeat k
       (++ seq)
